@@ -191,6 +191,7 @@ class EvRun:
         elif a[0] == "flush":
             fid = a[1]
             cbs = cb_acts(a[2]) if len(a) > 2 else []
+            cbend = a[3] if len(a) > 3 else 0     # how the callback ends: 0 returns None, 1 raises, 2 / 3 returns an unfired / a fired Deferred
             rid = len(self.flush_req)
             self.flush_req.append(fid)
             d = ev.flushEventualQueue()
@@ -225,7 +226,15 @@ class EvRun:
                     self.bad("oracle/flush-value", "flush fired with %r" % (v,))
                 for x in cbs:            # the observer's callback: more work, more flush requests (nested to any depth)
                     self.act(x)
+                if cbend == 1:
+                    raise Boom(fid)      # stays inside the Deferred: the queue must not notice
+                if cbend == 2:
+                    return defer.Deferred()
+                if cbend == 3:
+                    return defer.succeed(7)
             d.addCallback(fl)
+            if cbend:
+                d.addErrback(lambda f: None)
         else:
             raise ValueError(a)
 
@@ -306,11 +315,23 @@ def coq_evprog(prog):
 # programs: ["new"] | ["send",p,mid,beh] | ["sendonly",p,mid,beh] | ["when",p,w,kind] | ["resolve",p,x] | ["turn"]
 #           | ["fire",mid,x]   the program fires the Deferred that the method of message mid returns (beh ["retd"])
 #           beh = ["ret",v] | ["raise",f] | ["retp",q] | ["sendret",q,mid2,v] | ["retd"];  x = ["val",v] | ["fail",f] | ["prom",q]
+#               | ["nometh"]   the message names a method the target does not have: send(p).nosuch_method(..) -- accepted and
+#                              queued like any other; at delivery getattr fails inside maybeDeferred: nothing is invoked, the
+#                              result promise is BROKEN with the AttributeError (failure code -1), a sendOnly swallows it
+#               | ["private"]  send(p)._private_method: AttributeError at the call site (_MethodGetterWrapper), nothing is
+#                              queued, no result promise exists; direct oracle only -- the model never sees this operation
 #           kind = "when" | "then" | "except"
 # events:   [1,p,mid] sent  [2,p,mid,v] method invoked on value v  [3,p,w,0,v]/[3,p,w,1,f] observer told
 #           [4,p] UsageError raised to the caller  [5,p] AttributeError raised to the caller
 # =====================================================================================
 _MISSING = object()
+NOMETH_NAME = "nosuch_method"       # not an attribute of Target
+PRIVATE_NAME = "_private_method"
+ATTR_ERROR = -1                     # canon_outcome() of a Failure carrying an exception that is not ours (Promise.v: attr_error)
+
+
+def invocable(beh):
+    return beh[0] != "nometh"
 
 
 def canon_outcome(x):
@@ -368,6 +389,8 @@ class PrRun:
         self.extra = {}             # mid -> (positional extras, keyword extras) of the message
         self.dfs = {}               # mid -> the Deferred the method of message mid returns (beh "retd")
         self.fired = {}             # mid -> x   what the program fired that Deferred with
+        self.nlogged = 0            # how many entries of E.logged_errors have been looked at
+        self.nnometh = 0            # messages sent to a missing method
 
     def deferred(self, mid):
         if mid not in self.dfs:
@@ -376,6 +399,21 @@ class PrRun:
 
     def bad(self, sig, text):
         self.viol.append((sig, text))
+
+    def reactor_call(self):
+        """one reactor call; an AttributeError that the queue had to catch and log means that the delivery machinery itself
+        raised (a missing method's AttributeError belongs inside maybeDeferred: it goes to the resolver, not to the queue)"""
+        ran, exc = one_reactor_call()
+        if exc is not None:
+            self.bad("oracle/exception-escaped-turn", "an exception left _turn: %r" % (exc,))
+        new = E.logged_errors[self.nlogged:]
+        self.nlogged = len(E.logged_errors)
+        for ev_ in new:
+            f = ev_.get("failure")
+            if f is not None and f.check(AttributeError):
+                self.bad("oracle/delivery-raised-into-queue", "an AttributeError was raised by a queued delivery and caught by "
+                         "the eventual-send queue instead of reaching the message's resolver: %s" % (str(f.value)[:200],))
+        return ran
 
     def invoked(self, target, mid, beh, pos=(), kw=None):
         p = self.msg[mid][0]
@@ -416,9 +454,7 @@ class PrRun:
     def op(self, o):
         k = o[0]
         if k == "turn":
-            ran, exc = one_reactor_call()
-            if exc is not None:
-                self.bad("oracle/exception-escaped-turn", "an exception left _turn: %r" % (exc,))
+            self.reactor_call()
             return
         if k == "new":
             p, r = pm.makePromise()
@@ -451,6 +487,9 @@ class PrRun:
         if p >= len(self.P) or self.P[p] is None:
             return
         prom = self.P[p]
+        if k in ("send", "sendonly") and o[3][0] == "private":
+            self.private_send(k, p, prom)
+            return
         self.in_op = True
         try:
             if k in ("send", "sendonly"):
@@ -459,15 +498,18 @@ class PrRun:
                 self.extra[mid] = (tuple(xp), dict(xk))
                 ridx = len(self.P) if k == "send" else None
                 self.msg[mid] = (p, beh, ridx)
+                meth = "m" if invocable(beh) else NOMETH_NAME
+                if not invocable(beh):
+                    self.nnometh += 1
                 try:
                     if k == "send":
-                        rp = pm.send(prom).m(mid, beh, *xp, **xk)
+                        rp = getattr(pm.send(prom), meth)(mid, beh, *xp, **xk)
                         if not isinstance(rp, pm.Promise):
                             self.bad("oracle/send-result", "send() returned %r" % (rp,))
                         self.P.append(rp)
                         self.result_of[ridx] = mid
                     else:
-                        r = pm.sendOnly(prom).m(mid, beh, *xp, **xk)
+                        r = getattr(pm.sendOnly(prom), meth)(mid, beh, *xp, **xk)
                         if r is not None:
                             self.bad("oracle/send-result", "sendOnly() returned %r" % (r,))
                     self.trace.append([1, p, mid])
@@ -545,6 +587,20 @@ class PrRun:
         finally:
             self.in_op = False
 
+    def private_send(self, k, p, prom):
+        """send(p)._name / sendOnly(p)._name: refused at the call site with AttributeError; nothing is queued anywhere"""
+        def sizes():
+            return (len(self.q._events), len(prom.__dict__.get("_pendingMethods", ())), len(E.clock.calls))
+        before = sizes()
+        try:
+            getattr((pm.send if k == "send" else pm.sendOnly)(prom), PRIVATE_NAME)
+            self.bad("oracle/private-name-accepted", "%s(promise %d).%s did not raise AttributeError" % (k, p, PRIVATE_NAME))
+        except AttributeError:
+            pass
+        if sizes() != before:
+            self.bad("oracle/private-name-queued", "%s(promise %d).%s raised, yet (queue length, pending messages, reactor calls) "
+                     "went from %r to %r" % (k, p, PRIVATE_NAME, before, sizes()))
+
     # ---- what the property says the resolution of promise p must finally be (None: unresolved)
     def expected(self, p, seen=()):
         if p in seen:
@@ -559,6 +615,8 @@ class PrRun:
                 return None
             if e[0] == 1:
                 return e
+            if not invocable(self.msg[mid][1]):
+                return (1, ATTR_ERROR)   # the target is a value without that method: the result is BROKEN with the AttributeError
             x = self.returned.get(mid)
             if x is None:
                 return ("undelivered",)
@@ -591,10 +649,7 @@ class PrRun:
 
     def drain_and_judge(self, limit=400):
         for _ in range(limit):
-            ran, exc = one_reactor_call()
-            if exc is not None:
-                self.bad("oracle/exception-escaped-turn", "an exception left _turn: %r" % (exc,))
-            if not ran:
+            if not self.reactor_call():
                 break
         else:
             self.bad("oracle/no-quiescence", "the queue did not drain in %d turns" % limit)
@@ -617,7 +672,9 @@ class PrRun:
                          % (i, e[1], ["EVENTUAL", "CHAINED", "NEAR", "BROKEN"][st]))
             elif actual != e or (e is not None and st != (2 if e[0] == 0 else 3)):
                 self.bad("oracle/wrong-resolution", "promise %d must end as %r, but is in state %d with target %r" % (i, e, st, actual))
-            sent, got = self.sent.get(i, []), self.deliv.get(i, [])
+            # a message to a missing method invokes nothing: the methods invoked must be exactly the OTHER messages, in send
+            # order (what became of the missing-method ones is judged through their result promises, above)
+            sent, got = [m for m in self.sent.get(i, []) if invocable(self.msg[m][1])], self.deliv.get(i, [])
             if e is not None and e[0] == 0:
                 if got != sent:
                     self.bad("oracle/delivery-order", "messages sent to promise %d vs delivered to its resolution: %s" % (i, diffwin(sent, got)))
@@ -647,7 +704,7 @@ def run_pr(prog):
             kinds[w] = kind
     return dict(trace=trace, state=state, viol=r.viol, full=full, kinds=kinds,
                 ndeliv=sum(len(v) for v in r.deliv.values()), nobs=sum(len(v) for v in r.seen.values()),
-                nrefused=r.nrefused, nchained=r.nchained)
+                nrefused=r.nrefused, nchained=r.nchained, nnometh=r.nnometh)
 
 
 def filter_model_trace(flat, kinds):
@@ -670,6 +727,8 @@ def filter_model_trace(flat, kinds):
 def coq_beh(b):
     if b[0] == "retd":
         return "BRetD"
+    if b[0] == "nometh":
+        return "BNoMeth"
     if b[0] == "sendret":
         return "BSendRet %d %d %d" % (b[1], b[2], b[3])
     return {"ret": "BRet %d", "raise": "BRaise %d", "retp": "BRetP %d"}[b[0]] % b[1]
@@ -693,7 +752,8 @@ def coq_prop(o):
 
 
 def coq_prprog(prog):
-    return "[" + "; ".join(coq_prop(o) for o in prog) + "]"
+    # a send to a private name never reaches the promise (AttributeError at the call site): not an operation of the model
+    return "[" + "; ".join(coq_prop(o) for o in prog if not (o[0] in ("send", "sendonly") and o[3][0] == "private")) + "]"
 
 
 # =====================================================================================
